@@ -421,7 +421,9 @@ func (k Keeper) CloseEnglishAuction(ctx sdk.Context, englishAuction types.Auctio
 			return err
 		}
 
-		err = k.collector.SetNetFeeCollectedData(ctx, englishAuction.AppId, englishAuction.CollateralAssetId, englishAuction.CollateralToken.Amount)
+		// the collector has just received the winner's payment (the debt token): that is what its net fees grow by,
+		// not the amount of governance token minted for the winner
+		err = k.collector.SetNetFeeCollectedData(ctx, englishAuction.AppId, englishAuction.CollateralAssetId, englishAuction.DebtToken.Amount)
 		if err != nil {
 			return types.ErrorUnableToSetNetFees
 		}
